@@ -18,6 +18,7 @@ struct Mut {
 };
 struct Inj { uint64_t t; std::vector<uint8_t> data; std::string note; };
 struct Stall { uint64_t t; int node; uint64_t dur; };
+struct InRep { uint64_t t = 0, dt = 1, n = 0; int node = 0; std::string kind; uint64_t seed = 1; };  // n stdin chunks generated on the fly (soak runs)
 
 struct Plan {
     std::string prop, scen;
@@ -36,6 +37,8 @@ struct Plan {
     std::vector<Mut> mut;
     std::vector<Inj> inj;
     std::vector<Stall> stall;
+    std::vector<InRep> inrep;
+    bool soak = false;
     std::vector<uint64_t> restart;  // times at which the (tunnel) talker process is killed and started again
     std::string mode_str() const;  // e.g. "ntscf,raw,classic"
 };
